@@ -123,7 +123,7 @@ def segments(rows):
     return [(s, (starts[k + 1] if k + 1 < len(starts) else len(rows))) for k, s in enumerate(starts)]
 
 
-def judge(ctx, path, max_rejects=25):
+def judge(ctx, path, max_rejects=6):
     """Judge all segments of a trace file; after a rejected segment continue with the remaining ones.
     Returns {"segments", "events", "states", "rejected": [{"rows": [...], "stuck": row, "reset": row}], "unjudged"}."""
     rows = C.read_ndjson(path)
@@ -209,10 +209,20 @@ def replay_and_judge(ctx, bindir, tag, header, scheds, stats):
     return [(sh, nsh, one) for sh in range(nsh)], sf
 
 
+def harness_bindir():
+    """The harness built from /repo's working tree. PTCONC_BINDIR (development only) points the check at a
+    harness built elsewhere, e.g. against a mutated scratch copy of /repo when validating detection power."""
+    d = os.environ.get("PTCONC_BINDIR")
+    if d:
+        C.log("NOTE: using harness binaries from %s (PTCONC_BINDIR)" % d)
+        return d
+    return C.build_harness(bins=["ptconc"])
+
+
 def run_c09(ctx):
     if getattr(ctx, "replay", None):
         return run_replay(ctx)
-    bindir = C.build_harness(bins=["ptconc"])
+    bindir = harness_bindir()
     rnd = random.Random(ctx.seed)
     mc_shapes = MC_QUICK if ctx.quick else MC_THOROUGH
     xs = X_QUICK if ctx.quick else X_THOROUGH
@@ -307,7 +317,7 @@ def run_c09(ctx):
         for x in drift[:3]:
             if len(ctx.drift) < 12:
                 ctx.drift.append(dict(x, config=tag))
-        if first_rows is None and not j["rejected"] and tag.startswith("1L2F"):
+        if not j["rejected"] and summ.get("schedules", 0) >= 12 and (first_rows is None or tag.startswith("1L2F")):
             first_rows = C.read_ndjson(ctx.path("trace_%s_%d.ndjson" % (tag, sh)))
 
     C.log("replay + judging done (%.0fs)" % (time.time() - t0))
@@ -327,16 +337,21 @@ def run_c09(ctx):
         report_rejects(ctx, "stress", {"seed": ctx.seed * 1000 + i, "iterations": it_stress}, None, j["rejected"], "stress")
 
     # --- coverage gate: every yield point and every racing window was really reached in the replay
+    # (when violations were found they are the result; a code change that removes a window is then expected)
     missing = [l for l in YIELD_LABELS if labels.get(l, 0) == 0]
-    if missing:
-        raise C.ToolError("coverage gate: yield points never reached in the replay (hooks compiled in?): %s" % missing)
     need_w = ["zero_retry", "lookup_cas_fail", "forget_cas_retry"]
     miss_w = [w for w in need_w if windows.get(w, 0) == 0]
-    if miss_w:
-        raise C.ToolError("coverage gate: racing windows never hit in the replay: %s" % miss_w)
+    if missing or miss_w:
+        msg = "coverage gate: yield points never reached in the replay: %s; racing windows never hit: %s" % (missing, miss_w)
+        if not ctx.violations and not ctx.known_hit:
+            raise C.ToolError(msg)
+        C.log("note: " + msg)
 
     # --- binding demonstration
-    demo = binding_demo(ctx, first_rows)
+    if first_rows is None and ctx.violations:
+        demo = ["skipped: no fully accepted trace to corrupt (violations reported instead)"]
+    else:
+        demo = binding_demo(ctx, first_rows)
     C.log("stress + binding demo done (%.0fs)" % (time.time() - t0))
 
     total_sched = sum(d["schedules"] for d in per_cfg.values())
@@ -388,12 +403,13 @@ def binding_demo(ctx, rows):
         demos.append({"corruption": name, "rejected_at_event": idx, "event": stuck_summary(bad[idx - 1]) if idx - 1 < len(bad) else "EOF"})
 
     def seg_rows(bad, k):
-        s = segments(bad)[k]
-        return range(s[0], s[1])
+        # rows of segment k and the following ones (the first matching event is corrupted)
+        sg = segments(bad)
+        return range(sg[min(k, len(sg) - 1)][0], len(bad))
 
     def m_ret(bad):
         for i in seg_rows(bad, 3):
-            if bad[i]["e"] == "Ret" and bad[i]["op"] == "lookup" and bad[i]["t"] != 0:
+            if bad[i]["e"] == "Ret" and bad[i]["op"] in ("lookup", "rdp") and bad[i]["t"] != 0:
                 bad[i]["val"] = str(int(bad[i]["val"]) + 1)
                 return bad
         raise C.ToolError("binding demo: no lookup Ret to corrupt")
@@ -438,7 +454,7 @@ def run_replay(ctx):
     with open(ctx.replay) as f:
         rp = json.load(f)
     scen = rp.get("scenario") or rp
-    bindir = C.build_harness(bins=["ptconc"])
+    bindir = harness_bindir()
     wd = ctx.path("fs")
     os.makedirs(wd, exist_ok=True)
     if scen.get("mode") == "sched" and scen.get("schedule"):
